@@ -2,10 +2,12 @@
   Driver ops for C17.
   `["C17.run", cfg, defaultBackoff, events]` → `["ok", [snapshot after each event]]` | `["err","key-error"]`
   `["C17.gate", [label…]]` → `["ok", {"accepted":…, …}]`
+  `["C17.listing", [label…]]` → `["ok", {"accepted":…, "out": […], "startedPaused":…}]` (the producer of LISTED)
 -/
 import Kopf.Drv.Json
 import Kopf.Model.C17_Index
 import Kopf.Model.C17_Gate
+import Kopf.Model.C17_Listing
 open Lean
 namespace Kopf.Drv.C17
 open Kopf.C17
@@ -149,6 +151,36 @@ def replay : GS → Nat → List (Lb × Option (Nat × Bool)) → List Bool → 
       else Json.mkObj [("accepted", .bool false), ("at", .num (JsonNumber.fromNat i)), ("reason", .str "snapshot"),
                        ("model", Json.mkObj [("n", .num (JsonNumber.fromNat (toggles s'))), ("on", .bool s'.isOn)])]
 
+/-! the producer of LISTED -/
+def llabelOf? (j : Json) : Option Listing.Label := do
+  match ← jArr? j with
+  | [.str "pause"] => some .pause
+  | [.str "unpause"] => some .unpause
+  | [.str "begin"] => some .begin
+  | [.str "answer", n] => do some (.answer (← jNat? n))
+  | [.str "fail"] => some .fail
+  | [.str "abandon"] => some .abandon
+  | [.str "yieldItem"] => some .yieldItem
+  | [.str "yieldListed"] => some .yieldListed
+  | [.str "event"] => some .event
+  | [.str "endWatch"] => some .endWatch
+  | _ => none
+
+def outJson : Listing.Out → Json
+  | .item => .str "item"
+  | .event => .str "event"
+  | .listed a y => .arr #[.str "listed", (match a with | some n => .num (JsonNumber.fromNat n) | none => .null),
+                          .num (JsonNumber.fromNat y)]
+
+def lreplay : Listing.LState → Nat → List Listing.Label → Json
+  | s, _, [] =>
+    Json.mkObj [("accepted", .bool true), ("out", .arr (s.out.map outJson).toArray),
+                ("startedPaused", .bool s.startedPaused), ("paused", .bool s.paused)]
+  | s, i, l :: rest =>
+    match Listing.step .none s l with
+    | none => Json.mkObj [("accepted", .bool false), ("at", .num (JsonNumber.fromNat i)), ("reason", .str "disabled")]
+    | some s' => lreplay s' (i + 1) rest
+
 def handle : DrvHandler := fun op args =>
   match op, args with
   | "C17.run", [cfg, bk, evs] => do
@@ -164,6 +196,9 @@ def handle : DrvHandler := fun op args =>
   | "C17.gate", [ls] => do
       let ls ← (← jArr? ls).mapM labelOf?
       some (ok (replay GState.init 0 ls []))
+  | "C17.listing", [ls] => do
+      let ls ← (← jArr? ls).mapM llabelOf?
+      some (ok (lreplay Listing.LState.init 0 ls))
   | _, _ => none
 
 end Kopf.Drv.C17
